@@ -582,7 +582,9 @@ func init() {
 			{name: "archive", params: map[string]string{"mode": "archive"}, quick: 600, thorough: 20000}},
 		rule: "batch names: one simulated transfer between the real sender and the real receiver in which a link rewriter replaces the name in one NAME message (plain name, or the JSON path list in directory / protocol >= 3 mode) by a hostile one ('..' in any position, embedded '/', absolute path, empty element, over-long, '\\'), x -y x -d x protocols 1-4 x both receiving roles; batch archive: the real archive writer fed an entry header with a hostile path list; oracle: snapshot of the destination's parent (canary file, sibling directory) before/after - nothing outside the destination created, modified or removed; non-trivial = a hostile name was injected and the snapshot compared; distinct = distinct (configuration + injected name, schedule-trace hash, tape hash)"})
 	reg(&propDef{id: "C12", level: "exploration", crashIsViol: true, memKB: 8 << 20,
-		batches: []batch{{name: "fields", quick: 3000, thorough: 120000}},
+		batches: []batch{{name: "fields", quick: 3000, thorough: 120000},
+			{name: "archive", params: map[string]string{"mode": "archive"}, quick: 1500, thorough: 60000},
+			{name: "terminal", params: map[string]string{"mode": "terminal"}, quick: 1200, thorough: 40000}},
 		rule:    "each evaluation is one simulated transfer in which a link rewriter replaces the payload of 1-3 tape-chosen protocol lines sent to the attacked role (server or client) by boundary values: numbers (-1, 0, +-1 of the expected, 2^31, 2^62, 2^63-1, non-numeric, oversized), broken base64/zlib, truncated or wrongly typed JSON, hostile known fields; with and without a progress display, terminal widths 6-80; oracles: no panic/fatal error in any goroutine (a crash of the worker process is attributed to the run and re-executed), allocation during the run <= 64 MiB + 16 x bytes moved, both roles end, no percentage outside 0..100 on the terminal, and a transparency probe in both directions passes afterwards; non-trivial = an edit fired and all oracles ran; distinct = distinct (configuration + attacked role, schedule-trace hash, tape hash)"})
 	reg(&propDef{id: "C10", level: "exploration", crashIsViol: false,
 		batches: []batch{{name: "stops", quick: 2400, thorough: 60000},
